@@ -792,6 +792,38 @@ def r82(ctx: Ctx) -> RuleReport:
         if not names:
             rep.violation(key, fi.loc(st.ast), f'the key {norm(keyx)} is the same for every triple: each entry overwrites the one before')
             continue
+        # what is stored names the triple (through the context text built from it) and the message
+        tvars = {x.id for x in ast.walk(outer.target) if isinstance(x, ast.Name)}
+        derived = set(tvars)
+        grew = True
+        while grew:
+            grew = False
+            for n_ in ast.walk(outer):
+                if isinstance(n_, ast.Assign) and isinstance(n_.targets[0], ast.Name) and n_.targets[0].id not in derived \
+                        and any(isinstance(x, ast.Name) and x.id in derived for x in ast.walk(n_.value)):
+                    derived.add(n_.targets[0].id)
+                    grew = True
+                if isinstance(n_, ast.For) and any(isinstance(x, ast.Name) and x.id in derived for x in ast.walk(n_.iter)):
+                    for x in ast.walk(n_.target):
+                        if isinstance(x, ast.Name) and x.id not in derived:
+                            derived.add(x.id)
+                            grew = True
+        used = {x.id for x in ast.walk(st.ast.value) if isinstance(x, ast.Name)}
+        first = norm(outer.target.elts[0]) if isinstance(outer.target, ast.Tuple) and outer.target.elts else None
+        from_triple = {first} if first else set()
+        grew = True
+        while grew:
+            grew = False
+            for n_ in ast.walk(outer):
+                if isinstance(n_, ast.Assign) and isinstance(n_.targets[0], ast.Name) and n_.targets[0].id not in from_triple \
+                        and any(isinstance(x, ast.Name) and x.id in from_triple for x in ast.walk(n_.value)):
+                    from_triple.add(n_.targets[0].id)
+                    grew = True
+        k6 = f'{fi.fq}: the recorded text names the offending triple and the message'
+        if first and not (used & from_triple):
+            rep.violation(k6, fi.loc(st.ast), f'`{norm(st.ast.value)[:50]}` does not depend on `{first}`: the metadata says what is wrong but not for which triple (or the other way round)')
+        elif first:
+            rep.ok(k6, fi.loc(st.ast))
         ohead = cfg.node_of(outer)
         verdicts = []
         for cnt in names:
@@ -810,8 +842,12 @@ def r82(ctx: Ctx) -> RuleReport:
                 if n == ohead and path:
                     hit = path
                     break
-                if node.kind == 'stmt' and n != st.id and isinstance(node.ast, (ast.AugAssign, ast.Assign)) and cnt in assigned_names(node.ast):
-                    continue                                   # the counter is re-bound: a new key from here on
+                if node.kind == 'stmt' and n != st.id and isinstance(node.ast, ast.AugAssign) and cnt in assigned_names(node.ast) \
+                        and isinstance(node.ast.op, (ast.Add, ast.Sub)) and not (try_fold(node.ast.value)[0] and try_fold(node.ast.value)[1] == 0):
+                    continue                                   # the counter moves: a new key from here on
+                if node.kind == 'stmt' and n != st.id and isinstance(node.ast, ast.Assign) and cnt in assigned_names(node.ast) \
+                        and any(isinstance(x, ast.Name) and x.id == cnt for x in ast.walk(node.ast.value)) and not isinstance(node.ast.value, ast.Name):
+                    continue                                   # i = i + 1
                 for m, lab in cfg.succ[n]:
                     if lab == 'exc' or m in (cfg.rexit,):
                         continue
@@ -876,4 +912,150 @@ def r87(ctx: Ctx) -> RuleReport:
                           f'with the option and the following ones without it (or with the changed value)')
         else:
             rep.ok(key, fi.loc(), f'names followed: {sorted(derived)}')
+    return rep
+
+
+# ---------------------------------------------------------------------------------------------
+@rule('R102', 'the argument parser defines the documented options with the documented action, type, nargs, default and destination')
+def r102(ctx: Ctx) -> RuleReport:
+    from ..resolve import local_callees
+    rep = RuleReport('R102', r102.title, floor=15)
+    spec = json.loads((SPEC / 'cli.json').read_text())['arguments']
+    main = ctx.repo.func('penman.__main__', 'main')
+    calls = []
+    for f in local_callees(ctx, main, depth=2):
+        groups = {}
+        for n in walk_local(f.node):
+            if isinstance(n, ast.Assign) and isinstance(n.value, ast.Call) and isinstance(n.value.func, ast.Attribute) \
+                    and n.value.func.attr in ('add_argument_group', 'add_mutually_exclusive_group') and isinstance(n.targets[0], ast.Name):
+                groups[n.targets[0].id] = n.value.func.attr
+        for n in walk_local(f.node):
+            if isinstance(n, ast.Call) and isinstance(n.func, ast.Attribute) and n.func.attr == 'add_argument':
+                flags = []
+                for a in n.args:
+                    okf, fv = try_fold(a, {}, ctx.repo, f.module)
+                    if okf and isinstance(fv, str):
+                        flags.append(fv)
+                calls.append((f, n, flags, groups.get(norm(n.func.value)) == 'add_mutually_exclusive_group'))
+
+    def val(f, e):
+        okv, v = try_fold(e, {}, ctx.repo, f.module)
+        return ('const', v) if okv else ('src', norm(e).replace(' ', ''))
+    for arg in spec:
+        main_flag = max(arg['flags'], key=len)
+        key = f'penman.__main__: option {main_flag}'
+        found = [(f, n, fl, ex) for f, n, fl, ex in calls if main_flag in fl]
+        if not found:
+            rep.violation(key, main.loc(), f'the documented option {main_flag} is not defined by any add_argument call: the tool rejects a documented invocation')
+            continue
+        if len(found) > 1:
+            rep.undecided(key, main.loc(found[1][1]), 'defined more than once')
+            continue
+        f, n, fl, ex = found[0]
+        problems = []
+        if set(arg['flags']) - set(fl):
+            problems.append(f'the spelling(s) {sorted(set(arg["flags"]) - set(fl))} are gone')
+        got = {k.arg: k.value for k in n.keywords if k.arg and k.arg not in ('help', 'metavar')}
+        for k, wsrc in arg['kwargs'].items():
+            if k == 'version':
+                continue
+            wnode = ast.parse(wsrc, mode='eval').body
+            if k not in got:
+                problems.append(f'{k}={wsrc} is gone' + (' (the option now expects a value)' if k == 'action' and 'store_true' in wsrc else ''))
+                continue
+            gv, wv = val(f, got[k]), val(f, wnode)
+            if gv != wv:
+                if gv[0] == 'src' and wv[0] == 'src' and k == 'type':
+                    # same factory applied to the same table?
+                    def tab(e):
+                        return [norm(a) for a in e.args] if isinstance(e, ast.Call) else None
+                    if isinstance(got[k], ast.Call) and isinstance(wnode, ast.Call) and norm(got[k].func) == norm(wnode.func) and tab(got[k]) == tab(wnode):
+                        continue
+                problems.append(f'{k} is {norm(got[k])[:40]}, documented {wsrc}')
+        for k in got:
+            if k not in arg['kwargs'] and k in ('action', 'nargs', 'type', 'choices', 'const', 'required', 'dest'):
+                okd, dv = try_fold(got[k], {}, ctx.repo, f.module)
+                if k == 'dest' and okd and dv == main_flag.lstrip('-').replace('-', '_'):
+                    continue
+                if k == 'action' and okd and dv == 'store':
+                    continue
+                if k == 'required' and okd and dv is False:
+                    continue
+                problems.append(f'new {k}={norm(got[k])[:30]}')
+        if bool(arg.get('exclusive')) != bool(ex):
+            problems.append('it is ' + ('no longer' if arg.get('exclusive') else 'now') + ' in the mutually exclusive model group')
+        if problems:
+            rep.violation(key, f.loc(n), '; '.join(problems) + ': the command line accepts / interprets this option differently from what is documented')
+        else:
+            rep.ok(key, f.loc(n))
+    return rep
+
+
+# ---------------------------------------------------------------------------------------------
+@rule('R103', 'a comma-separated key list is split at commas, unknown names are rejected, model methods become sort functions and the other names keyword flags set to True')
+def r103(ctx: Ctx) -> RuleReport:
+    rep = RuleReport('R103', r103.title, floor=4)
+    # (a) the argparse type function
+    of = ctx.repo.func('penman.__main__', '_order_funcs')
+    inner = [f for f in ctx.repo.all_functions() if f.parent is of]
+    sa = inner[0] if inner else of
+    splits = [n for n in walk_local(sa.node) if isinstance(n, ast.Call) and isinstance(n.func, ast.Attribute) and n.func.attr in ('split', 'rsplit')]
+    key = f'{sa.fq}: the argument is split at commas'
+    if not splits:
+        rep.undecided(key, sa.loc(), 'no .split(...)')
+    for c in splits:
+        oks, sep = try_fold(c.args[0]) if c.args else (True, None)
+        rep.add(key, sa.loc(c), 'ok' if oks and sep == ',' else ('violation' if oks else 'undecided'),
+                '' if oks and sep == ',' else f'split separator is {sep!r}: "canonical,attributes-first" is no longer two key names')
+    raises = [n for n in walk_local(sa.node) if isinstance(n, ast.Raise)]
+    key = f'{sa.fq}: a name that is not in the table is rejected'
+    if not raises:
+        rep.violation(key, sa.loc(), 'no raise is left: an unknown key name reaches the lookup in the key table and the tool stops with a KeyError traceback instead of a usage error')
+    for r in raises:
+        fx = {(f.replace(' ', ''), pol) for f, pol in facts_ex(ctx, sa, r)}
+        good = any(('notin' in f and pol) or ('notin' not in f and 'in' in f and not pol) for f, pol in fx)
+        bad = any(('notin' in f and not pol) or ('notin' not in f and f.count('in') and pol and 'key_funcs' in f) for f, pol in fx)
+        rep.add(key, sa.loc(r), 'ok' if good else ('violation' if bad or not fx else 'undecided'),
+                '' if good else 'the usage error is raised for the names that ARE in the table' if bad else 'the usage error does not depend on the table')
+    rets = [n for n in walk_local(sa.node) if isinstance(n, ast.Return) and n.value is not None]
+    if inner:
+        rep.add(f'{of.fq}: returns the type function', of.loc(), 'ok' if any(isinstance(n, ast.Return) and n.value is not None and norm(n.value) == sa.name
+                                                                               for n in walk_local(of.node)) else 'violation',
+                'the factory does not return its inner function: argparse gets None as the type')
+    # (b) _make_sort_key
+    mk = ctx.repo.func('penman.__main__', '_make_sort_key')
+    lookups = [n for n in walk_local(mk.node) if isinstance(n, ast.Assign) and isinstance(n.value, ast.Call) and norm(n.value.func) == 'getattr' and len(n.value.args) >= 2]
+    if len(lookups) != 1:
+        rep.undecided(f'{mk.fq}: each name is looked up on the model with getattr(model, name, None)', mk.loc(), f'{len(lookups)} getattr calls')
+        return rep
+    lk = lookups[0]
+    fv = lk.targets[0].id if isinstance(lk.targets[0], ast.Name) else None
+    a0, a1 = norm(lk.value.args[0]), norm(lk.value.args[1])
+    mparam = mk.positional[1] if len(mk.positional) > 1 else 'model'
+    rep.add(f'{mk.fq}: the lookup is getattr(<model>, <method name>, None)', mk.loc(lk), 'ok' if a0 == mparam else ('violation' if a1 == mparam else 'undecided'),
+            '' if a0 == mparam else f'getattr({a0}, {a1}, ...): the arguments are the wrong way round, nothing is ever found and every key becomes a keyword flag')
+    for n in walk_local(mk.node):
+        if isinstance(n, ast.Call) and isinstance(n.func, ast.Attribute) and n.func.attr == 'append' and n.args and norm(n.args[0]) == fv:
+            fx = {(f.replace(' ', ''), pol) for f, pol in facts_ex(ctx, mk, n)}
+            ok_ = (f'{fv}isNone', False) in fx or (f'{fv}isnotNone', True) in fx or (fv, True) in fx
+            bad_ = (f'{fv}isNone', True) in fx or (f'{fv}isnotNone', False) in fx
+            rep.add(f'{mk.fq}: a name that is a method of the model is used as a sort function', mk.loc(n), 'ok' if ok_ else ('violation' if bad_ or not fx else 'undecided'),
+                    '' if ok_ else 'None is appended to the sort functions / the methods that were found are not: sorting fails with TypeError or ignores the key')
+        if isinstance(n, ast.Assign) and isinstance(n.targets[0], ast.Subscript) and isinstance(n.value, ast.Constant):
+            fx = {(f.replace(' ', ''), pol) for f, pol in facts_ex(ctx, mk, n)}
+            ok_ = ((f'{fv}isNone', True) in fx or (f'{fv}isnotNone', False) in fx) and n.value.value is True
+            rep.add(f'{mk.fq}: a name that is not a method becomes a keyword flag with the value True', mk.loc(n),
+                    'ok' if ok_ else 'violation', '' if ok_ else (f'the flag is set to {n.value.value!r}' if n.value.value is not True else 'the flag is set for the names that ARE methods of the model'))
+    appended = any(isinstance(n, ast.Call) and isinstance(n.func, ast.Attribute) and n.func.attr == 'append' and n.args and norm(n.args[0]) == fv for n in walk_local(mk.node))
+    stored = any(isinstance(n, ast.Assign) and isinstance(n.targets[0], ast.Subscript) and isinstance(n.value, ast.Constant) for n in walk_local(mk.node))
+    if not appended:
+        rep.violation(f'{mk.fq}: a name that is a method of the model is used as a sort function', mk.loc(), 'the method that was looked up is never added to the sort functions: every key sorts nothing')
+    if not stored:
+        rep.violation(f'{mk.fq}: a name that is not a method becomes a keyword flag with the value True', mk.loc(), 'no flag is ever stored: attributes-first is silently ignored')
+    rets = [n for n in walk_local(mk.node) if isinstance(n, ast.Return) and n.value is not None and isinstance(n.value, ast.Tuple) and len(n.value.elts) == 2]
+    if rets:
+        r = rets[0]
+        first_is_func = any(f.parent is mk and f.name == norm(r.value.elts[0]) for f in ctx.repo.all_functions())
+        rep.add(f'{mk.fq}: returns (sort function, keyword flags)', mk.loc(r), 'ok' if first_is_func else 'violation',
+                '' if first_is_func else f'returns ({norm(r.value.elts[0])}, {norm(r.value.elts[1])}): the caller unpacks (key, kwargs), so the dict is used as the sort key and the function as **kwargs')
     return rep
